@@ -330,11 +330,37 @@ def _guaranteed_types(ctx):
                     t = e.args[1]
                     for y in (t.elts if isinstance(t, ast.Tuple) else [t]):
                         ts.add(dotted(y))
+        # the types are GUARANTEED only if a value of none of them cannot get through the
+        # branch whatever else holds (`val is not None and not isinstance(val, int)` lets
+        # None through: nothing is guaranteed then)
+        if ts and not _must_refuse(ctx, vo, body):
+            ts = set()
         for k in keys:
             types[k] = ts or {'any'}
         for p in prefixes:
             pre[p] = ts or {'any'}
     return types, pre, vo
+
+
+def _must_refuse(ctx, vo, body):
+    from sa.idioms import nodes_within, entry_of
+    cfg = ctx.cfg(vo)
+    inside = {n.id for n in nodes_within(cfg, body)}
+    start = entry_of(cfg, body)
+    if start is None:
+        return True
+
+    def not_of_type(e):
+        if isinstance(e, ast.Call) and dotted(e.func) == 'isinstance' and e.args and \
+                norm_text(e.args[0]) == 'val':
+            return False
+        return None
+    raises = [n for n in cfg.nodes if n.id in inside and n.kind == 'stmt' and
+              isinstance(n.ast, ast.Raise)]
+    r = reach_under(cfg, start, not_of_type, avoid=raises,
+                    labels_excluded=('exc', 'raise', 'reraise'))
+    r = set(r) | {start.id}
+    return all(i in inside for i in r) and cfg.exit.id not in r
 
 
 def r5(run, ctx):
